@@ -17,13 +17,13 @@ CLAUSES = {'unexpected-callback', 'missing-callback', 'wrong-callback', 'registe
 generate, project, oracle, nontrivial, stats = _world.make(
     'C02', TAGS, CLAUSES, [
         dict(n_proc=(0, 1), handlers=0.85, ctrl=0.2, raises=0.3,
-             w=dict(addproc=0.3, rmproc=0.2, enable=3, dispatch=2, clear=0.7)),
+             w=dict(addproc=0.3, rmproc=0.2, enable=3, dispatch=2, clear=1.3)),
         dict(n_proc=(0, 1), handlers=0.85, ctrl=0.2, raises=0.3,
-             w=dict(addproc=0.3, rmproc=0.2, enable=3, dispatch=2, clear=0.7)),
+             w=dict(addproc=0.3, rmproc=0.2, enable=3, dispatch=2, clear=1.3)),
         # handler components that are value objects (dataclass style: instances compare equal, may be
         # unhashable or falsy) and a second world of the same classes in the same process
         dict(n_proc=(0, 1), handlers=0.85, ctrl=0.2, traits=0.9, decoy=0.4,
-             w=dict(addproc=0.3, rmproc=0.2, enable=3, dispatch=2, clear=0.7)),
+             w=dict(addproc=0.3, rmproc=0.2, enable=3, dispatch=2, clear=1.3)),
         dict(n_proc=(0, 2), handlers=0.9, ctrl=0.2, reenter=0.95,
              w=dict(addproc=1, rmproc=0.5, enable=0.5, dispatch=0.5, clear=0.3, delete=4, process=2)),
     ])
